@@ -275,6 +275,44 @@ DEFECTS = (
     ('undefined-matcher-symbol-in-assertion', 'exit-code UNDEFINED_MATCHER', ('VALIDATION_ERROR',), 'assert-only'),
     ('undefined-symbol-in-path-of-assertion', 'exists @[UNDEFINED_SYM]@', ('VALIDATION_ERROR',), 'assert-only'),
     ('undefined-file-matcher-symbol-in-assertion', 'exists f.txt : UNDEFINED_FM', ('VALIDATION_ERROR',), 'assert-only'),
+    # composites whose several parts each carry validation: the defective part at every position (round 6: C03-r6m1 kept one
+    # validator per file NAME of a files-condition, so the matcher of an earlier entry with the same name was not validated)
+    ('files-condition-same-name-bad-matcher-first',
+     "dir-contents . : matches {\n    f1.txt : contents matches '('\n    f1.txt : type file\n}", ('VALIDATION_ERROR',), 'assert-only'),
+    ('files-condition-same-name-bad-matcher-last',
+     "dir-contents . : matches {\n    f1.txt : type file\n    f1.txt : contents matches '('\n}", ('VALIDATION_ERROR',), 'assert-only'),
+    ('files-condition-same-name-other-spelling-missing-home-file-first',
+     "dir-contents . : matches -full {\n    f1.txt : contents equals -contents-of -rel-home missing.txt\n    ./f1.txt : type file\n}",
+     ('VALIDATION_ERROR',), 'assert-only'),
+    ('files-condition-three-entries-bad-integer-in-the-middle',
+     "dir-contents . : matches {\n    a : type file\n    f1.txt : contents num-lines == notAnInt\n    f1.txt\n}",
+     ('VALIDATION_ERROR',), 'assert-only'),
+    ('files-condition-symbol-same-name-bad-matcher-first',
+     "def files-condition FC = {\n    f1.txt : contents matches '('\n    f1.txt : type file\n}\ndir-contents . : matches FC",
+     ('VALIDATION_ERROR',), 'assert-only'),
+    ('conjunction-bad-operand-last', "exists f1.txt : ( type file && contents matches '(' )", ('VALIDATION_ERROR',), 'assert-only'),
+    ('disjunction-bad-operand-first', "exists f1.txt : ( contents matches '(' || type file )", ('VALIDATION_ERROR',), 'assert-only'),
+    ('disjunction-three-operands-bad-in-the-middle',
+     "exists f1.txt : ( type file || contents equals -contents-of -rel-home missing.txt || type dir )", ('VALIDATION_ERROR',),
+     'assert-only'),
+    ('file-list-bad-contents-first', "dir dl1 = {\n    file a = -contents-of -rel-home missing.txt\n    file b = 'x'\n}",
+     ('VALIDATION_ERROR',), None),
+    ('file-list-bad-contents-last', "dir dl2 = {\n    file a = 'x'\n    file a2 = 'y'\n    file b = -contents-of -rel-home missing.txt\n}",
+     ('VALIDATION_ERROR',), None),
+    ('file-list-nested-bad-contents', "dir dl3 = {\n    dir sub = {\n        file b = -contents-of -rel-home missing.txt\n    }\n    file c = 'x'\n}",
+     ('VALIDATION_ERROR',), None),
+    ('program-arguments-missing-file-first-of-three', '% echo -existing-file -rel-home missing.txt -existing-file -rel-home existing.txt x',
+     ('VALIDATION_ERROR',), None),
+    ('program-arguments-missing-file-last-of-three', '% echo x -existing-file -rel-home existing.txt -existing-file -rel-home missing.txt',
+     ('VALIDATION_ERROR',), None),
+    ('transformer-sequence-bad-regex-first', "file ts1.txt = 'x' -transformed-by ( replace '(' y | identity | char-case -to-upper )",
+     ('VALIDATION_ERROR',), None),
+    ('transformer-sequence-bad-regex-in-the-middle', "file ts2.txt = 'x' -transformed-by ( identity | replace '(' y | char-case -to-upper )",
+     ('VALIDATION_ERROR',), None),
+    ('replace-with-line-selection-bad-regex', "file ts3.txt = 'x' -transformed-by replace -at line-num == 1 '(' y", ('VALIDATION_ERROR',), None),
+    ('replace-with-line-selection-and-preserve-new-lines-bad-regex',
+     "file ts4.txt = 'x' -transformed-by replace -at line-num == 1 -preserve-new-lines '(' y", ('VALIDATION_ERROR',), None),
+    ('replace-with-bad-line-selection', "file ts5.txt = 'x' -transformed-by replace -at line-num == notAnInt 'a' y", ('VALIDATION_ERROR',), None),
     ('bad-regex-in-matcher-after-valid', "file r2.txt = -contents-of -rel-home existing.txt -transformed-by ( identity | filter contents matches '(' )",
      ('VALIDATION_ERROR',), None),
 )
